@@ -128,6 +128,20 @@ theorem disabled_is_zero (k : ℕ) :
   · rw [C03.stage_R_ax, if_neg (by simp [h])]; exact at'_replicate _ _
   · rw [C03.stage_R_ra, if_neg (by simp [h])]; exact at'_replicate _ _
 
+/-- the same for charge exchange, Spitzer heating and ion–ion heat exchange: the reported array is
+identically zero when the process is switched off -/
+theorem disabled_is_zero' (k : ℕ) :
+    (m.opts.CX = false → at' (stage m y).R_cx k = 0) ∧ (m.opts.SPITZER = false → at' (stage m y).sh k = 0) ∧
+    (m.opts.CT = false → at' (stage m y).ct k = 0) := by
+  have hcx : m.opts.CX = false → (stage m y).R_cx = Array.replicate m.nq (lit 0 : ℝ) := by
+    intro h; show (if m.opts.CX then _ else _) = _; rw [if_neg (by simp [h])]
+  have hsh : m.opts.SPITZER = false → (stage m y).sh = Array.replicate m.nq (lit 0 : ℝ) := by
+    intro h; show (if m.opts.SPITZER then _ else _) = _; rw [if_neg (by simp [h])]
+  have hct : m.opts.CT = false → (stage m y).ct = Array.replicate m.nq (lit 0 : ℝ) := by
+    intro h; show (if m.opts.CT then _ else _) = _; rw [if_neg (by simp [h])]
+  exact ⟨fun h => by rw [hcx h]; exact at'_replicate _ _, fun h => by rw [hsh h]; exact at'_replicate _ _,
+    fun h => by rw [hct h]; exact at'_replicate _ _⟩
+
 /-- … and leaves every other reported quantity untouched: with EI switched off all other stage
 arrays are the same arrays (definitional: none of them reads the switch) -/
 theorem switch_EI_leaves_others (o : Options) (h : o = { m.opts with EI := false }) :
@@ -154,6 +168,162 @@ theorem switch_escape_leaves_others (o : Options) (h : o = { m.opts with ESC_AX 
     (stage m' y).ct = (stage m y).ct := by
   subst h
   exact ⟨rfl, rfl, rfl, rfl, rfl, rfl, rfl⟩
+
+/-- switching `DR` off leaves every other stage array (rates, heating terms, overlap factors, trap
+parameters, cross sections used, potential) definitionally unchanged -/
+theorem switch_DR_leaves_others (o : Options) (h : o = { m.opts with DR := false }) :
+    let m' : Model ℝ := { m with opts := o }
+    (stage m' y).R_ei = (stage m y).R_ei ∧
+    (stage m' y).R_rr = (stage m y).R_rr ∧
+    (stage m' y).R_cx = (stage m y).R_cx ∧
+    (stage m' y).R_ax = (stage m y).R_ax ∧
+    (stage m' y).R_ra = (stage m y).R_ra ∧
+    (stage m' y).sh = (stage m y).sh ∧
+    (stage m' y).ct = (stage m y).ct ∧
+    (stage m' y).fei = (stage m y).fei ∧
+    (stage m' y).iheat = (stage m y).iheat ∧
+    (stage m' y).e_kin = (stage m y).e_kin ∧
+    (stage m' y).fwhm = (stage m y).fwhm ∧
+    (stage m' y).w_ax = (stage m y).w_ax ∧
+    (stage m' y).w_ra = (stage m y).w_ra ∧
+    (stage m' y).ri = (stage m y).ri ∧
+    (stage m' y).v_th = (stage m y).v_th ∧
+    (stage m' y).xs_ei = (stage m y).xs_ei ∧
+    (stage m' y).xs_rr = (stage m y).xs_rr ∧
+    (stage m' y).xs_dr = (stage m y).xs_dr ∧
+    (stage m' y).phi = (stage m y).phi := by
+  subst h
+  exact ⟨rfl, rfl, rfl, rfl, rfl, rfl, rfl, rfl, rfl, rfl, rfl, rfl, rfl, rfl, rfl, rfl, rfl, rfl, rfl⟩
+
+/-- switching `CX` off leaves every other stage array (rates, heating terms, overlap factors, trap
+parameters, cross sections used, potential) definitionally unchanged -/
+theorem switch_CX_leaves_others (o : Options) (h : o = { m.opts with CX := false }) :
+    let m' : Model ℝ := { m with opts := o }
+    (stage m' y).R_ei = (stage m y).R_ei ∧
+    (stage m' y).R_rr = (stage m y).R_rr ∧
+    (stage m' y).R_dr = (stage m y).R_dr ∧
+    (stage m' y).R_ax = (stage m y).R_ax ∧
+    (stage m' y).R_ra = (stage m y).R_ra ∧
+    (stage m' y).sh = (stage m y).sh ∧
+    (stage m' y).ct = (stage m y).ct ∧
+    (stage m' y).fei = (stage m y).fei ∧
+    (stage m' y).iheat = (stage m y).iheat ∧
+    (stage m' y).e_kin = (stage m y).e_kin ∧
+    (stage m' y).fwhm = (stage m y).fwhm ∧
+    (stage m' y).w_ax = (stage m y).w_ax ∧
+    (stage m' y).w_ra = (stage m y).w_ra ∧
+    (stage m' y).ri = (stage m y).ri ∧
+    (stage m' y).v_th = (stage m y).v_th ∧
+    (stage m' y).xs_ei = (stage m y).xs_ei ∧
+    (stage m' y).xs_rr = (stage m y).xs_rr ∧
+    (stage m' y).xs_dr = (stage m y).xs_dr ∧
+    (stage m' y).phi = (stage m y).phi := by
+  subst h
+  exact ⟨rfl, rfl, rfl, rfl, rfl, rfl, rfl, rfl, rfl, rfl, rfl, rfl, rfl, rfl, rfl, rfl, rfl, rfl, rfl⟩
+
+/-- switching `SPITZER` off leaves every other stage array (rates, heating terms, overlap factors, trap
+parameters, cross sections used, potential) definitionally unchanged -/
+theorem switch_SPITZER_leaves_others (o : Options) (h : o = { m.opts with SPITZER := false }) :
+    let m' : Model ℝ := { m with opts := o }
+    (stage m' y).R_ei = (stage m y).R_ei ∧
+    (stage m' y).R_rr = (stage m y).R_rr ∧
+    (stage m' y).R_dr = (stage m y).R_dr ∧
+    (stage m' y).R_cx = (stage m y).R_cx ∧
+    (stage m' y).R_ax = (stage m y).R_ax ∧
+    (stage m' y).R_ra = (stage m y).R_ra ∧
+    (stage m' y).ct = (stage m y).ct ∧
+    (stage m' y).fei = (stage m y).fei ∧
+    (stage m' y).iheat = (stage m y).iheat ∧
+    (stage m' y).e_kin = (stage m y).e_kin ∧
+    (stage m' y).fwhm = (stage m y).fwhm ∧
+    (stage m' y).w_ax = (stage m y).w_ax ∧
+    (stage m' y).w_ra = (stage m y).w_ra ∧
+    (stage m' y).ri = (stage m y).ri ∧
+    (stage m' y).v_th = (stage m y).v_th ∧
+    (stage m' y).xs_ei = (stage m y).xs_ei ∧
+    (stage m' y).xs_rr = (stage m y).xs_rr ∧
+    (stage m' y).xs_dr = (stage m y).xs_dr ∧
+    (stage m' y).phi = (stage m y).phi := by
+  subst h
+  exact ⟨rfl, rfl, rfl, rfl, rfl, rfl, rfl, rfl, rfl, rfl, rfl, rfl, rfl, rfl, rfl, rfl, rfl, rfl, rfl⟩
+
+/-- switching `CT` off leaves every other stage array (rates, heating terms, overlap factors, trap
+parameters, cross sections used, potential) definitionally unchanged -/
+theorem switch_CT_leaves_others (o : Options) (h : o = { m.opts with CT := false }) :
+    let m' : Model ℝ := { m with opts := o }
+    (stage m' y).R_ei = (stage m y).R_ei ∧
+    (stage m' y).R_rr = (stage m y).R_rr ∧
+    (stage m' y).R_dr = (stage m y).R_dr ∧
+    (stage m' y).R_cx = (stage m y).R_cx ∧
+    (stage m' y).R_ax = (stage m y).R_ax ∧
+    (stage m' y).R_ra = (stage m y).R_ra ∧
+    (stage m' y).sh = (stage m y).sh ∧
+    (stage m' y).fei = (stage m y).fei ∧
+    (stage m' y).iheat = (stage m y).iheat ∧
+    (stage m' y).e_kin = (stage m y).e_kin ∧
+    (stage m' y).fwhm = (stage m y).fwhm ∧
+    (stage m' y).w_ax = (stage m y).w_ax ∧
+    (stage m' y).w_ra = (stage m y).w_ra ∧
+    (stage m' y).ri = (stage m y).ri ∧
+    (stage m' y).v_th = (stage m y).v_th ∧
+    (stage m' y).xs_ei = (stage m y).xs_ei ∧
+    (stage m' y).xs_rr = (stage m y).xs_rr ∧
+    (stage m' y).xs_dr = (stage m y).xs_dr ∧
+    (stage m' y).phi = (stage m y).phi := by
+  subst h
+  exact ⟨rfl, rfl, rfl, rfl, rfl, rfl, rfl, rfl, rfl, rfl, rfl, rfl, rfl, rfl, rfl, rfl, rfl, rfl, rfl⟩
+
+/-- switching `ESC_RA` off leaves every other stage array (rates, heating terms, overlap factors, trap
+parameters, cross sections used, potential) definitionally unchanged -/
+theorem switch_ESC_RA_leaves_others (o : Options) (h : o = { m.opts with ESC_RA := false }) :
+    let m' : Model ℝ := { m with opts := o }
+    (stage m' y).R_ei = (stage m y).R_ei ∧
+    (stage m' y).R_rr = (stage m y).R_rr ∧
+    (stage m' y).R_dr = (stage m y).R_dr ∧
+    (stage m' y).R_cx = (stage m y).R_cx ∧
+    (stage m' y).R_ax = (stage m y).R_ax ∧
+    (stage m' y).sh = (stage m y).sh ∧
+    (stage m' y).ct = (stage m y).ct ∧
+    (stage m' y).fei = (stage m y).fei ∧
+    (stage m' y).iheat = (stage m y).iheat ∧
+    (stage m' y).e_kin = (stage m y).e_kin ∧
+    (stage m' y).fwhm = (stage m y).fwhm ∧
+    (stage m' y).w_ax = (stage m y).w_ax ∧
+    (stage m' y).w_ra = (stage m y).w_ra ∧
+    (stage m' y).ri = (stage m y).ri ∧
+    (stage m' y).v_th = (stage m y).v_th ∧
+    (stage m' y).xs_ei = (stage m y).xs_ei ∧
+    (stage m' y).xs_rr = (stage m y).xs_rr ∧
+    (stage m' y).xs_dr = (stage m y).xs_dr ∧
+    (stage m' y).phi = (stage m y).phi := by
+  subst h
+  exact ⟨rfl, rfl, rfl, rfl, rfl, rfl, rfl, rfl, rfl, rfl, rfl, rfl, rfl, rfl, rfl, rfl, rfl, rfl, rfl⟩
+
+/-- switching `IHEAT` off leaves every other stage array (rates, heating terms, overlap factors, trap
+parameters, cross sections used, potential) definitionally unchanged -/
+theorem switch_IHEAT_leaves_others (o : Options) (h : o = { m.opts with IHEAT := false }) :
+    let m' : Model ℝ := { m with opts := o }
+    (stage m' y).R_ei = (stage m y).R_ei ∧
+    (stage m' y).R_rr = (stage m y).R_rr ∧
+    (stage m' y).R_dr = (stage m y).R_dr ∧
+    (stage m' y).R_cx = (stage m y).R_cx ∧
+    (stage m' y).R_ax = (stage m y).R_ax ∧
+    (stage m' y).R_ra = (stage m y).R_ra ∧
+    (stage m' y).sh = (stage m y).sh ∧
+    (stage m' y).ct = (stage m y).ct ∧
+    (stage m' y).fei = (stage m y).fei ∧
+    (stage m' y).e_kin = (stage m y).e_kin ∧
+    (stage m' y).fwhm = (stage m y).fwhm ∧
+    (stage m' y).w_ax = (stage m y).w_ax ∧
+    (stage m' y).w_ra = (stage m y).w_ra ∧
+    (stage m' y).ri = (stage m y).ri ∧
+    (stage m' y).v_th = (stage m y).v_th ∧
+    (stage m' y).xs_ei = (stage m y).xs_ei ∧
+    (stage m' y).xs_rr = (stage m y).xs_rr ∧
+    (stage m' y).xs_dr = (stage m y).xs_dr ∧
+    (stage m' y).phi = (stage m y).phi := by
+  subst h
+  exact ⟨rfl, rfl, rfl, rfl, rfl, rfl, rfl, rfl, rfl, rfl, rfl, rfl, rfl, rfl, rfl, rfl, rfl, rfl, rfl⟩
 
 /-- consequently: switching ionisation off changes the derivative of every non-neutral state by
 exactly the ionisation term -/
